@@ -61,6 +61,22 @@ def decoy(lang: str, u: int):
     return Snippet(lines, [("magic-numbers.numeric-literal", 3)], "decoy")
 
 
+def exempt(lang: str, u: int):
+    """Literals that are quiet only because of where they stand (an UPPERCASE constant definition; Python: also a
+    small `range()` argument and a string-repetition factor) next to one reported use of another literal. An edit that
+    moves or lengthens lines elsewhere must change neither the exemptions nor the reported one."""
+    m = _magic(u)
+    k = 23 + u % 60
+    if lang == "py":
+        lines = [f"MAX_RETRIES_{u} = {k}", "", f"def scale_{u}(a{u}):", f"    for step{u} in range(4):", f"        a{u} = widen_{u}(a{u}, step{u})", f"    return a{u} * {m}"]
+        return Snippet(lines, [("magic-numbers.numeric-literal", 5)], "exempt")
+    if lang in ("ts", "js"):
+        lines = [f"const MAX_RETRIES_{u} = {k};", "", f"function scale_{u}(a{u}{_ann(lang, 'number')}) {{", f"    const b{u} = widen_{u}(a{u}, MAX_RETRIES_{u});", f"    return b{u} * {m};", "}"]
+        return Snippet(lines, [("magic-numbers.numeric-literal", 4)], "exempt")
+    lines = [f"const MAX_RETRIES_{u}: i32 = {k};", "", f"fn scale_{u}(a{u}: i32) -> i32 {{", f"    let b{u} = widen_{u}(a{u}, MAX_RETRIES_{u});", f"    b{u} * {m}", "}"]
+    return Snippet(lines, [("magic-numbers.numeric-literal", 4)], "exempt")
+
+
 def cloneuse(lang: str, u: int):
     """Rust: `let b = a.clone()` with the source never used afterwards (reported as unnecessary clone) and the same
     shape with the source used in a later statement (not reported). Whether a name is *used afterwards* is a fact
